@@ -38,6 +38,7 @@ type World struct {
 	globals   map[*ssa.Global]int64
 	globTypes     typeutil.Map // types that occur in some package-level variable
 	globTypesOnce sync.Once
+	privAlloc     map[*ssa.Alloc]bool
 	funcs     map[*ssa.Function]int64
 	funcByID  map[int64]*ssa.Function
 	typeTags  map[string]int64
